@@ -1,5 +1,5 @@
 (* Task PF: per-call laws for C07 (Destroy) and C01 (what Start returns). *)
-From Sessions Require Import Model.Base Model.Sess Model.Hist Proofs.SessDefs Proofs.HistInv Proofs.HistInv2.
+From Sessions Require Import Model.Base Model.Sess Model.Hist Proofs.SessDefs Proofs.HistInv Proofs.HistInv2 Proofs.HistInv3.
 From Coq Require Import Lia.
 
 (* ------------------------------------------------------------- Destroy *)
@@ -224,3 +224,62 @@ Proof.
   - destruct (start_none_created _ _ _ _ _ _ _ _ _ I H) as (ob' & A1 & A2 & A3 & A4 & A5 & A6 & A7).
     exists ob'. split; [exact A1|]. split; [exact A2|]. left. split; [exact A3|]. repeat split; assumption.
 Qed.
+
+(* the per-call statement on any state satisfying the invariants of SessDefs.v *)
+Theorem start_isolation_sess s q s' o' cks : sess_inv s ->
+  start s q = (s', Ok (Some o'), cks) ->
+  exists ob', hget s' o' = Some ob' /\ r_ref (o_rec ob') = None /\
+    ((q_create q = true /\ is_created s ob' cks) \/
+     (exists k, q_cookie q = CKey k /\ is_resolved s k ob')).
+Proof. intros H. apply (start_isolation 0 (supply s, evs s) ND). apply sess_inv_inv. exact H. Qed.
+
+(* non-vacuity: a stored session with data is presented and returned with it *)
+Definition st_ex : st :=
+  w_st (reach cfg_ex [HReq (mkReqStep 1 PJar true (AOther 0) 7 [SSet 1 2] [] [] None); HDropCache]).
+
+Example start_isolation_nonvacuous :
+  exists s' o' cks ob', start st_ex (mkReq (CKey (KGen 0)) false (AOther 0) 7) = (s', Ok (Some o'), cks) /\
+    hget s' o' = Some ob' /\ r_data (o_rec ob') = Some [(1, 2)%N] /\ L st_ex (KGen 0) <> None.
+Proof. vm_compute. do 4 eexists. repeat split; try reflexivity. discriminate. Qed.
+
+(* ------------------------------------------ isolation along histories *)
+
+(* the cookie value a request step presents *)
+Definition presented (w : world) (r : reqstep) : cval :=
+  match rq_present r with PJar => jar_of (w_jars w) (rq_client r) | PForge c => c end.
+
+(* The session a request step reports as returned by Start (its ID and fields
+   at return) is a session created in that step, or the one the presented ID
+   resolved to in the state before the step. *)
+Definition step_isolated (w : world) (r : reqstep) : Prop :=
+  forall id rc, ob_start (snd (step w (HReq r))) = Some (id, rc) ->
+    r_ref rc = None /\
+    ((rq_create r = true /\ id = KGen (supply (w_st w)) /\ r_data rc = Some [] /\ r_user rc = None) \/
+     (exists k, presented w r = CKey k /\ is_resolved (w_st w) k (mkObj id rc))).
+
+Lemma step_isolated_winv b w r : winv b ND (w_st w) -> rq_plan r = [] -> step_isolated w r.
+Proof.
+  intros W Hpl id rc Hst. rewrite step_req_eq in Hst. cbv zeta in Hst. rewrite Hpl in Hst.
+  pose proof (inv_of_winv b ND (w_st w) (rq_tb r) W) as I1.
+  unfold req_body in Hst.
+  match type of Hst with context [start ?s1 ?q] =>
+    destruct (start_inv _ _ _ _ q I1) as (s2 & res & cks & E & I2 & Hres & Hck);
+    pose proof (start_isolation b (supply (w_st w), []) ND s1 q s2) as Hiso
+  end.
+  rewrite E in Hst. destruct (fire_due_inv _ _ _ _ I2) as (I3 & Hh & _).
+  destruct res as [[o|]|e|e].
+  - specialize (Hiso o cks I1 E). destruct Hiso as (ob' & Ho' & Hr' & Hcase).
+    destruct (run_script _ _ _ _) as [[s3 sr] cks'].
+    destruct (rq_crash r); [destruct (fold_left _ _ _); discriminate|].
+    cbn [snd mk_obs ob_start] in Hst. unfold handle_view, hget in Hst. rewrite Hh in Hst.
+    fold (hget s2 o) in Hst. rewrite Ho' in Hst. injection Hst as <- <-.
+    split; [exact Hr'|]. destruct Hcase as [[Hc (A1 & A2 & A3 & _)]|[k [Hk Hres']]].
+    + left. repeat split; assumption.
+    + right. exists k. split; [exact Hk|]. destruct ob'. exact Hres'.
+  - destruct (rq_crash r); [destruct (fold_left _ _ _)|]; discriminate.
+  - destruct (rq_crash r); [destruct (fold_left _ _ _)|]; discriminate.
+  - destruct (rq_crash r); [destruct (fold_left _ _ _)|]; discriminate.
+Qed.
+
+Theorem hist_isolation c hs r : Forall ff_hop hs -> rq_plan r = [] -> step_isolated (reach c hs) r.
+Proof. intros Hff Hpl. destruct (reach_winv c hs Hff) as [b W]. eapply step_isolated_winv; eassumption. Qed.
